@@ -110,6 +110,9 @@ package index
 // MarkFailed: after it the builder carries an error whenever it was given one
 // (Finish then discards what was built - see the ensures of Finish above: a
 // builder with an error installs nothing).
+// failureReported: the clean-up under discussion has told the builder how the
+// run ended (ghost).
+//@ ghost var failureReported bool
 //@ func index.(*Builder).MarkFailed
 //@   requires b != nil
 //@   ensures err != nil ==> b.buildError != nil
